@@ -551,7 +551,7 @@ def _pair_key(f: ast.AST, fi, e: ast.AST, role: str):
             loop = ds[0][0]
             it = loop.iter
             if isinstance(it, ast.Call) and norm(it.func) == "zip" and len(ds[0][2]) == 1:
-                src = norm(it.args[ds[0][2][0]]) if ds[0][2][0] < len(it.args) else "?"
+                src = norm(D.expanded(f, it.args[ds[0][2][0]])) if ds[0][2][0] < len(it.args) else "?"
                 return ("zip", id(loop), src)
             return ("for", id(loop), ds[0][2])
         if len(ds) == 1 and ds[0][3] == "param":
@@ -670,7 +670,7 @@ def a7_zip_alignment(ctx) -> None:
         if not loops:
             ctx.violation("A7", f, f"{m.qualname} no longer walks the children together with their labels", construct=f"{m.qualname} zip")
         for l in loops:
-            za = [norm(a) for a in l.iter.args]
+            za = [norm(D.expanded(f, a)) if isinstance(a, ast.Name) and a.id not in m.params() else norm(a) for a in l.iter.args]
             params = set(m.params())
             ok = len(za) == 2 and sum(1 for a in za if a.endswith(".children")) == 1 and sum(1 for a in za if a in params) == 1
             if ok:
@@ -905,7 +905,8 @@ def a13_add_rule_bookkeeping(ctx) -> None:
             ctx.violation("A13", f, f"add_rule no longer calls {name} for the children of the rule", construct=f"add_rule {name}")
             continue
         for c in calls:
-            gs = {(norm(t), p_) for t, p_ in C.flatten_guards(C.guards(f, c, within=loops[0] if loops and any(c is x for x in ast.walk(loops[0])) else None))}
+            gs = {(norm(D.expanded(f, t)) if isinstance(t, ast.Name) else norm(t), p_)
+                  for t, p_ in C.flatten_guards(C.guards(f, c, within=loops[0] if loops and any(c is x for x in ast.walk(loops[0])) else None))}
             if gs == guards:
                 ctx.ok("A13", f"add_rule: {name} under exactly {sorted(t for t, _ in guards) or 'no condition'}")
             else:
